@@ -41,6 +41,15 @@ def ObsOK : Obs → Prop
   | .ret mt _ sn => RetOK mt sn
   | _ => True
 
+/-- Trace form of "from the moment shutdown began every request asks to be left
+idle": every `sent` entry after a `cancel` entry has `PreferBeingIdle`. -/
+def SentAfterCancel (l : List Obs) : Prop :=
+  ∀ l1 l2, l = l1 ++ Obs.cancel :: l2 → ∀ r sn, Obs.sent r sn ∈ l2 → r.preferIdle = true
+
+/-- Invariant of the ghost log (`c` = the thread's context is cancelled). -/
+def LogInv (l : List Obs) (c : Bool) : Prop :=
+  (∀ o ∈ l, ObsOK o) ∧ (Obs.cancel ∈ l → c = true) ∧ SentAfterCancel l
+
 def ReqHonest (s : State) : Prop :=
   match s.req with
   | .idle => s.cur = none
@@ -59,7 +68,7 @@ structure Inv (s : State) : Prop where
   drainIdle : s.pc = .drain .idle → ∃ ts, s.lastReply = some (.reply (some ts) .idle)
   toldIdle : (∃ ts, s.lastReply = some (.reply (some ts) .idle)) →
     s.pc = .drain .idle ∨ (s.req = .idle ∧ s.mayThink = none ∧ s.cur = none)
-  logOK : ∀ o ∈ s.log, ObsOK o
+  logOK : LogInv s.log s.cancelled
 
 /-! ### basic facts -/
 
@@ -98,6 +107,6 @@ theorem applyMsgs_append (req : ReqState) (a : List Msg) (m : Msg) :
   | cons x t ih => simp [applyMsgs, ih]
 
 theorem inv_init (t0 : Nat) : Inv (init t0) := by
-  refine ⟨?_, ?_, ?_, ?_, ?_, ?_, ?_, ?_, ?_⟩ <;> simp [init, ReqHonest]
+  refine ⟨?_, ?_, ?_, ?_, ?_, ?_, ?_, ?_, ?_⟩ <;> simp [init, ReqHonest, LogInv, SentAfterCancel]
 
 end BbRe.Lemmas.BuildClient
